@@ -76,9 +76,9 @@ def run_program(binary, text, workdir, tag, extra_args=()):
     return p.returncode, p.stdout, p.stderr, events
 
 
-def parse_out(stdout):
+def parse_out(stdout, rel="Out"):
     rows = set()
-    for m in re.finditer(r"\(Out((?:\s+-?\d+)*)\)\s*->", stdout):
+    for m in re.finditer(r"\(%s((?:\s+-?\d+)*)\)\s*->" % re.escape(rel), stdout):
         rows.add(tuple(int(x) for x in m.group(1).split()))
     return rows
 
@@ -412,33 +412,45 @@ def small_rows(atoms, rnd, max_rows=R):
     return {name: sorted(rows.items()) for name, rows in db.items()}
 
 
-def split_phases(sdb, rnd):
-    """-> (phases for render_program, rows by class) ; classes: 'old' (top level, before run 1),
-    'mid' (written by a rule during run 1: timestamp == run 2's last_run_at), 'new' (top level, after run 1)"""
-    cls = {"old": [], "mid": [], "new": []}
+def split_steps(sdb, rnd, schedule):
+    """Distribute the small rows over the steps of `schedule` (a list of ruleset names): each row is written
+    either at top level before some step ('pre') or by a rule during some step but the last ('aux').
+    -> (steps for render_program, placement: list of (name, key, val, step, 'pre'|'aux'))"""
+    n = len(schedule)
+    steps = [{"ruleset": rs, "pre": [], "aux": []} for rs in schedule]
+    placed = []
     for name, rows in sorted(sdb.items()):
         for key, val in rows:
-            cls[rnd.choice(["old", "mid", "new"])].append((name, key, val))
+            k = rnd.randrange(n)
+            how = "aux" if (k < n - 1 and rnd.random() < 0.4) else "pre"
+            steps[k][how].append(gen.fact_text(name, key, val, name[0].islower()))
+            placed.append((name, tuple(key), val, k, how))
+    return steps, placed
 
-    def txt(rows):
-        return [gen.fact_text(n, k, v, n[0].islower()) for n, k, v in rows]
-    phases = [{"pre": txt(cls["old"]), "aux": txt(cls["mid"])}, {"pre": txt(cls["new"]), "aux": []}]
-    return phases, cls
 
-
-def db_at_run(cls, run_no, tid_of, mid):
-    """table id -> {key: (val, ts, sub)} as it stands when run `run_no` (0-based) starts; timestamps are
-    synthetic but ordered like the real ones relative to `mid` (= last_run_at of run 1, i.e. run 0's next_ts)"""
+def db_at_step(placed, step, prev_step, tid_of, mid):
+    """table id -> {key: (val, ts, sub)} as it stands when the run of step `step` starts, for a rule whose
+    previous run was step `prev_step` (None: never ran; then mid == 0).  Timestamps are synthetic but ordered
+    like the real ones relative to `mid` (= that rule's last_run_at): rows written before the previous run
+    -> mid-1; written by a rule DURING the previous run -> mid; anything later -> mid+1."""
     db = {}
-    groups = [("old", 0)] if run_no == 0 else [("old", max(mid - 1, 0)), ("mid", mid), ("new", mid + 1)]
-    for g, ts in groups:
-        for name, key, val in cls[g]:
-            db.setdefault(tid_of[name], {})[tuple(key)] = (val, ts, 0)
+    for name, key, val, k, how in placed:
+        if k > step or (k == step and how == "aux"):
+            continue  # not written yet
+        if prev_step is None:
+            ts = 0
+        elif k < prev_step or (k == prev_step and how == "pre"):
+            ts = mid - 1
+        elif k == prev_step and how == "aux":
+            ts = mid
+        else:
+            ts = mid + 1
+        db.setdefault(tid_of[name], {})[key] = (val, ts, 0)
     return db
 
 
 def main_rule_records(events, out_tid):
-    """-> list of (event index, funcs event, rule_rec, variants, kept_plans) for runs of the Out rule"""
+    """-> list of (event index, funcs event, rule_rec, variants, kept_plans) for runs of the rule writing out_tid"""
     res = []
     last_funcs = None
     for i, ev in enumerate(events):
@@ -457,6 +469,18 @@ def main_rule_records(events, out_tid):
             variants = ev["ruleset"]["variants"][lo:hi]
             res.append((i, last_funcs, rr, variants, ev["ruleset"]["plans"]))
     return res
+
+
+def step_events(events, trig_tid):
+    """event indices of the scheduled `(run <ruleset> 1)` commands, in order: run events containing a body
+    rule or a Trig rule (i.e. not top-level actions, not the seed rule)"""
+    idx = []
+    for i, ev in enumerate(events):
+        if ev.get("ev") != "run":
+            continue
+        if any(rr["atoms"] for rr in ev["rules"]):
+            idx.append(i)
+    return idx
 
 
 # ------------------------------------------------------------------------------------------------
@@ -481,37 +505,26 @@ def witness_program(atoms, no_decomp, profile, wit, mid):
             g = "old" if (mid == 0 or ts < mid) else ("mid" if ts == mid else "new")
             cls[g].extend(cmds)
     if mid > 0:
-        phases = [{"pre": cls["old"], "aux": cls["mid"]}, {"pre": cls["new"], "aux": []}]
+        steps = [{"ruleset": "main", "pre": cls["old"], "aux": cls["mid"]}, {"ruleset": "main", "pre": cls["new"], "aux": []}]
     else:
-        phases = [{"pre": cls["old"], "aux": []}]
-    return gen.render_program(atoms, no_decomp, profile, phases)
-
-
-def expected_out_after(atoms, tid_of, events, names, run_event_idxs):
-    """union over the runs of the body's meaning on the database as it stood at each run (small rows only)"""
-    exp = set()
-    for i in run_event_idxs:
-        cdb = reconstruct_db(events, i, names)
-        exp |= eval_body(atoms, tid_of, cdb)
-    return exp
+        steps = [{"ruleset": "main", "pre": cls["old"], "aux": []}]
+    return gen.render_program(atoms, no_decomp, profile, steps)
 
 
 def replay_witness(binary, workdir, tag, atoms, no_decomp, profile, wit, rule_rec, plan_key):
-    """-> (reproduced: bool|None, text of the replay artefact)"""
+    """-> (reproduced: bool|None, note, program, expected, real)"""
     prog = witness_program(atoms, no_decomp, profile, wit, rule_rec["mid_ts"])
     if prog is None:
         return None, "witness subsumes a row of a merge function; not replayable from the surface language", "", set(), set()
     rc, out, err, events = run_program(binary, prog, workdir, tag)
-    note = "program:\n" + prog + "\nexit=%d\nstderr tail: %s\n" % (rc, err[-600:])
+    note = "exit=%d\nstderr tail: %s\n" % (rc, err[-600:])
     if rc != 0:
         return None, note + "replay program failed to run\n", prog, set(), set()
     funcs = [e for e in events if e["ev"] == "funcs"][-1]
-    names = {f["table"]: f for f in funcs["funcs"]}
     tid_of = {f["name"]: f["table"] for f in funcs["funcs"]}
     recs = main_rule_records(events, tid_of["Out"])
     keys = [norm_plan_key(rr, variants) for (_, _, rr, variants, _) in recs]
     real = {t for t in parse_out(out) if all(x < gen.BIG for x in t)}
-    # subsume commands are not reconstructed from the dump: evaluate expectation from the witness itself
     exp = set()
     for phase_mid in ([None] if rule_rec["mid_ts"] == 0 else [rule_rec["mid_ts"], None]):
         cdb = {}
@@ -538,7 +551,8 @@ def replay_witness(binary, workdir, tag, atoms, no_decomp, profile, wit, rule_re
 def write_artefact(path, prop, what, program, expected, real, extra=""):
     with open(path, "w") as f:
         f.write("kind=e2\nproperty=%s\nwhat=%s\nexpected_out=%s\nreal_out_when_found=%s\n---program---\n%s---end---\n%s\n"
-                % (prop, what, json.dumps(sorted(expected)), json.dumps(sorted(real)), program, extra))
+                % (prop, what, json.dumps({k: sorted(v) for k, v in expected.items()} if isinstance(expected, dict) else {"Out": sorted(expected)}),
+                   json.dumps({k: sorted(v) for k, v in real.items()} if isinstance(real, dict) else {"Out": sorted(real)}), program, extra))
 
 
 def replay_artefact(binary, path, workdir):
@@ -548,102 +562,159 @@ def replay_artefact(binary, path, workdir):
     e = re.search(r"^expected_out=(.*)$", body, re.M)
     if not m or not e:
         return None, "artefact has no program / expected_out"
-    exp = {tuple(t) for t in json.loads(e.group(1))}
+    exp = {k: {tuple(t) for t in v} for k, v in json.loads(e.group(1)).items()}
     rc, out, err, _ = run_program(binary, m.group(1), workdir, "replay")
     if rc != 0:
         return None, "program exited %d: %s" % (rc, err[-400:])
-    real = {t for t in parse_out(out) if all(x < gen.BIG for x in t)}
-    note = "real Out (small range): %s\nexpected: %s\n" % (sorted(real), sorted(exp))
+    real = {k: {t for t in parse_out(out, k) if all(x < gen.BIG for x in t)} for k in exp}
+    note = "real (small range): %s\nexpected: %s\n" % ({k: sorted(v) for k, v in real.items()}, {k: sorted(v) for k, v in exp.items()})
     return (real != exp), note
 
 
+def cover_query(V, rr, variants):
+    """C03.1 — the variant set covers every new match, as a statement about timestamps only:
+    exists t_1..t_k < next_ts with some t_i >= mid such that no variant's constraint list holds.  -> 'unsat' wanted"""
+    k = len(rr["atoms"])
+    mid = rr["mid_ts"]
+    t = [z3.Int("t%d" % i) for i in range(k)]
+    plan_atom_to_src = {pa: i for i, pa in enumerate(rr["atom_mapping"])}
+    s = z3.Solver()
+    for x in t:
+        s.add(x >= 0, x < rr["next_ts"])
+    if not rr["seminaive"]:
+        newc = z3.BoolVal(True)
+    elif rr["sole_focus"] is not None:
+        newc = t[rr["sole_focus"]] >= mid
+    else:
+        newc = z3.Or([x >= mid for x in t]) if t else z3.BoolVal(mid == 0)
+    s.add(newc)
+    for v in variants:
+        cs = []
+        for e in v["extra"]:
+            i = plan_atom_to_src.get(e["atom"])
+            c = e["c"]
+            if i is None or c.get("col") != rr["atoms"][i]["func_cols"]:
+                cs.append(z3.BoolVal(False))  # not a timestamp constraint on a body atom: cannot be assumed to hold
+                continue
+            cs.append(model.constraint_holds(c, {c["col"]: t[i]}))
+        s.add(z3.Not(z3.And(cs) if cs else z3.BoolVal(True)))
+    r = V.check(s, 30000)
+    return str(r), ([s.model().eval(x, model_completion=True).as_long() for x in t] if r == z3.sat else None)
+
+
 def work_item(args):
-    """One (shape, no_decomp, profile, seed) program: run, validate new plans, sanity-check. -> dict"""
-    (binary, workdir, sid, body, no_decomp, profile, seed, seen_keys, mutate) = args
+    """One (shape, no_decomp, profile, seed, schedule) program: run it through the real binary, validate every
+    plan not seen before, cross-check model and engine on the concrete database.  -> dict"""
+    (binary, workdir, prop, sid, body, no_decomp, profile, seed, schedule, rules, seen_keys) = args
     res = {"shape": sid, "body": body, "no_decomp": no_decomp, "profile": profile[0], "seed": seed,
-           "plans": [], "errors": [], "violations": [], "sanity": [], "solver_s": 0.0, "queries": 0}
+           "schedule": "".join(r[0] for r in schedule),
+           "plans": [], "errors": [], "violations": [], "sanity": [], "chain": [], "cover": [], "solver_s": 0.0, "queries": 0}
     try:
         atoms = gen.parse_body(body)
-        rnd = random.Random(zlib.crc32(("%s/%s/%s/%d" % (sid, no_decomp, profile[0], seed)).encode()))
+        tag = "%s_%s_%s_%s_%d" % (sid, "nd" if no_decomp else "d", profile[0], res["schedule"], seed)
+        rnd = random.Random(zlib.crc32(tag.encode()))
         sdb = small_rows(atoms, rnd)
-        phases, cls = split_phases(sdb, rnd)
-        text = gen.render_program(atoms, no_decomp, profile, phases, seed=seed)
-        tag = "%s_%s_%s_%d" % (sid, "nd" if no_decomp else "d", profile[0], seed)
+        steps, placed = split_steps(sdb, rnd, schedule)
+        text = gen.render_program(atoms, no_decomp, profile, steps, seed=seed, rules=rules)
         rc, out, err, events = run_program(binary, text, workdir, tag)
         if rc != 0:
             res["errors"].append("egglog exited %d on generated program %s: %s" % (rc, tag, err[-400:]))
             return res
         funcs = [e for e in events if e["ev"] == "funcs"][-1]
         V = Validator(atoms, funcs)
-        recs = main_rule_records(events, V.out_tid)
-        if len(recs) != 2:
-            res["errors"].append("%s: expected 2 runs of the rule in the dump, got %d" % (tag, len(recs)))
+        sev = step_events(events, None)
+        if len(sev) != len(schedule):
+            res["errors"].append("%s: %d scheduled runs but %d run events with body rules in the dump" % (tag, len(schedule), len(sev)))
             return res
-        real = {t for t in parse_out(out) if all(x < gen.BIG for x in t)}
-        exp = set()
-        for k in range(2):
-            exp |= eval_body(atoms, V.tid_of, db_at_run(cls, k, V.tid_of, recs[1][2]["mid_ts"]))
-        if real != exp:
+        ev_to_step = {e: k for k, e in enumerate(sev)}
+        real_all, exp_all = {}, {}
+        for rs, (outrel, ropts) in sorted(rules.items()):
+            V.out_tid = V.tid_of[outrel]
+            recs = main_rule_records(events, V.out_tid)
+            my_steps = [k for k, r_ in enumerate(schedule) if r_ == rs]
+            if [ev_to_step.get(i) for (i, _, _, _, _) in recs] != my_steps:
+                res["errors"].append("%s: rule of ruleset %s ran at steps %s, scheduled %s"
+                                     % (tag, rs, [ev_to_step.get(i) for (i, _, _, _, _) in recs], my_steps))
+                continue
+            naive = ":naive" in ropts
+            real = {t for t in parse_out(out, outrel) if all(x < gen.BIG for x in t)}
+            exp = set()
+            prev = None
+            prev_next_ts = 0
+            for (i, fe, rr, variants, plans) in recs:
+                k = ev_to_step[i]
+                # --- trace facts (deterministic, reported separately): the semi-naive window has no gap
+                ok_chain = (rr["mid_ts"] == prev_next_ts) and rr["next_ts"] > rr["mid_ts"]
+                res["chain"].append({"tag": tag, "ruleset": rs, "step": k, "mid": rr["mid_ts"], "next_ts": rr["next_ts"],
+                                     "prev_next_ts": prev_next_ts, "ok": ok_chain})
+                if not ok_chain:
+                    res["errors"].append("%s: ruleset %s step %d: last_run_at = %d but the rule's previous run had next_ts = %d "
+                                         "(next_ts now %d): rows stamped in between fall outside every semi-naive window"
+                                         % (tag, rs, k, rr["mid_ts"], prev_next_ts, rr["next_ts"]))
+                if rr["seminaive"] == naive:
+                    res["errors"].append("%s: rule options %r but dumped seminaive=%s" % (tag, ropts, rr["seminaive"]))
+                cdb = db_at_step(placed, k, prev, V.tid_of, rr["mid_ts"])
+                exp |= eval_body(atoms, V.tid_of, cdb)
+                key = norm_plan_key(rr, variants)
+                # --- model vs body meaning on this concrete database (every program, every run)
+                try:
+                    po = V.pinned_outputs(rr, variants, cdb)
+                    want_all = eval_body(atoms, V.tid_of, cdb)
+                    want = want_all if naive else eval_body(atoms, V.tid_of, cdb, new_since=rr["mid_ts"])
+                    ok = want <= po <= want_all
+                    res["sanity"].append({"tag": tag, "ruleset": rs, "step": k, "model_out": len(po), "new": len(want),
+                                          "all": len(want_all), "agree": ok, "key": key})
+                    if not ok:
+                        res["errors"].append("%s step %d: the model of plan %s, pinned to the concrete database, emits %s; "
+                                             "new matches %s, all matches %s" % (tag, k, key, sorted(po), sorted(want), sorted(want_all)))
+                except model.ModelError as e:
+                    res["errors"].append("%s: %s" % (tag, e))
+                prev, prev_next_ts = k, rr["next_ts"]
+                if key in seen_keys:
+                    continue
+                seen_keys[key] = tag
+                # --- C03.1 cover of the variant set (timestamps only)
+                cq, cw = cover_query(V, rr, variants)
+                res["cover"].append({"key": key, "verdict": cq, "witness_ts": cw})
+                try:
+                    v = V.validate_run(rr, variants, plans)
+                except model.ModelError as e:
+                    res["errors"].append("%s: plan outside the model: %s" % (tag, e))
+                    continue
+                kind = rr["cached"]["plan"]["kind"]
+                prec = {"key": key, "tag": tag, "kind": kind, "blocks": len(rr["cached"]["plan"].get("blocks", [])),
+                        "mid0": rr["mid_ts"] == 0, "n_atoms": len(rr["atoms"]), "seminaive": rr["seminaive"], "cover": cq,
+                        "verdict": {k_: v[k_] for k_ in v if k_ != "witness"}}
+                res["plans"].append(prec)
+                bad = [k_ for k_ in ("spurious", "lost") if v.get(k_) not in ("unsat", None)]
+                if v.get("witness_new_match_possible") != "sat":
+                    res["errors"].append("%s: vacuous: no database within the bounds has a new match (%s)" % (tag, v.get("witness_new_match_possible")))
+                if "witness" in v:
+                    w = v["witness"]
+                    rep, note, prog, wexp, wreal = replay_witness(binary, workdir, tag + "_replay", atoms, no_decomp, profile, w, rr, key)
+                    art = os.path.join(workdir, "%s.%s.witness.txt" % (tag, key))
+                    write_artefact(art, prop, "solver witness (%s match) for plan %s" % (w["kind"], key), prog, wexp, wreal,
+                                   "shape=%s body=%s no_decomp=%s profile=%s\nwitness=%s\n%s"
+                                   % (sid, body, no_decomp, profile[0], json.dumps(w), note))
+                    res["violations"].append({"key": "%s:%s:%s" % (w["kind"], sid, "nd" if no_decomp else "d"),
+                                              "what": "%s match on plan %s (%s, %s, profile %s): tuple %s"
+                                              % (w["kind"], key, sid, kind, profile[0], w["tuple"]),
+                                              "replay": art, "reproduced": bool(rep), "replay_status": rep})
+                elif bad:
+                    res["errors"].append("%s: solver returned %s" % (tag, {k_: v.get(k_) for k_ in bad}))
+                elif cq != "unsat":
+                    res["errors"].append("%s: plan %s: the semantic queries are unsat but the timestamp cover query is %s (%s)"
+                                         % (tag, key, cq, cw))
+            real_all[outrel], exp_all[outrel] = real, exp
+            res["sanity"].append({"tag": tag, "ruleset": rs, "real_out": len(real), "expected": len(exp), "agree": real == exp})
+        if real_all != exp_all:
             art = os.path.join(workdir, tag + ".concrete.txt")
-            write_artefact(art, "C02", "concrete cross-check: real Out differs from the nested-loop meaning of the body",
-                           text, exp, real, "shape=%s body=%s" % (sid, body))
-            res["violations"].append({"key": "concrete:" + tag, "what": "real Out differs from the body's meaning on a concrete database "
-                                      "(found while cross-checking the model, no solver involved)", "replay": art,
-                                      "reproduced": True, "program": text})
-        res["sanity"].append({"tag": tag, "real_out": len(real), "expected": len(exp), "agree": real == exp})
-        for run_no, (i, fe, rr, variants, plans) in enumerate(recs):
-            if mutate:
-                rr = mutate(rr)
-            key = norm_plan_key(rr, variants)
-            if run_no == 1 and rr["mid_ts"] != recs[0][2]["next_ts"]:
-                res["errors"].append("%s: run 2's last_run_at (%d) is not run 1's next_ts (%d)" % (tag, rr["mid_ts"], recs[0][2]["next_ts"]))
-            if rr["next_ts"] <= rr["mid_ts"]:
-                res["errors"].append("%s: timestamps do not advance (mid %d, next %d)" % (tag, rr["mid_ts"], rr["next_ts"]))
-            cdb = db_at_run(cls, run_no, V.tid_of, rr["mid_ts"])
-            # model vs real executor on this concrete database (every program, also for already-seen plans)
-            try:
-                po = V.pinned_outputs(rr, variants, cdb)
-                want = eval_body(atoms, V.tid_of, cdb, new_since=rr["mid_ts"])
-                want_all = eval_body(atoms, V.tid_of, cdb)
-                ok = want <= po <= want_all
-                res["sanity"].append({"tag": tag, "run_mid": rr["mid_ts"], "model_out": len(po), "new": len(want),
-                                      "all": len(want_all), "agree": ok})
-                if not ok and real == exp and not mutate:
-                    res["errors"].append("%s: the plan model disagrees with the body's meaning on a concrete database where the "
-                                         "real engine agrees with it (model defect): model=%s new=%s all=%s"
-                                         % (tag, sorted(po), sorted(want), sorted(want_all)))
-            except model.ModelError as e:
-                res["errors"].append("%s: %s" % (tag, e))
-                continue
-            if key in seen_keys:
-                continue
-            seen_keys[key] = tag
-            try:
-                v = V.validate_run(rr, variants, plans)
-            except model.ModelError as e:
-                res["errors"].append("%s: plan outside the model: %s" % (tag, e))
-                continue
-            kind = rr["cached"]["plan"]["kind"]
-            nblocks = len(rr["cached"]["plan"].get("blocks", []))
-            prec = {"key": key, "tag": tag, "kind": kind, "blocks": nblocks, "mid0": rr["mid_ts"] == 0,
-                    "n_atoms": len(rr["atoms"]), "verdict": {k: v[k] for k in v if k != "witness"}}
-            res["plans"].append(prec)
-            bad = [k for k in ("spurious", "lost") if v.get(k) not in ("unsat", None)]
-            if v.get("witness_new_match_possible") != "sat":
-                res["errors"].append("%s: vacuous: no database within the bounds has a new match (%s)" % (tag, v.get("witness_new_match_possible")))
-            if "witness" in v:
-                w = v["witness"]
-                rep, note, prog, wexp, wreal = replay_witness(binary, workdir, tag + "_replay", atoms, no_decomp, profile, w, rr, key)
-                art = os.path.join(workdir, "%s.%s.witness.txt" % (tag, key))
-                write_artefact(art, "C02", "solver witness (%s match) for plan %s" % (w["kind"], key), prog, wexp, wreal,
-                               "shape=%s body=%s no_decomp=%s profile=%s\nwitness=%s\n%s"
-                               % (sid, body, no_decomp, profile[0], json.dumps(w), note))
-                res["violations"].append({"key": "%s:%s:%s" % (w["kind"], sid, "nd" if no_decomp else "d"),
-                                          "what": "%s match on plan %s (%s, %s, profile %s): tuple %s"
-                                          % (w["kind"], key, sid, kind, profile[0], w["tuple"]),
-                                          "replay": art, "reproduced": bool(rep), "replay_status": rep})
-            elif bad:
-                res["errors"].append("%s: solver returned %s" % (tag, {k: v.get(k) for k in bad}))
+            write_artefact(art, prop, "concrete cross-check: the real engine's output differs from the nested-loop meaning of the body",
+                           text, exp_all, real_all, "shape=%s body=%s schedule=%s" % (sid, body, res["schedule"]))
+            res["violations"].append({"key": "concrete:" + tag, "what": "real output differs from the body's meaning on a concrete "
+                                      "history (found by the concrete cross-check of the model, no solver involved): real %s expected %s"
+                                      % ({k: sorted(v) for k, v in real_all.items()}, {k: sorted(v) for k, v in exp_all.items()}),
+                                      "replay": art, "reproduced": True})
         res["solver_s"] = V.solver_s
         res["queries"] = V.queries
     except Exception as e:  # noqa
@@ -653,14 +724,52 @@ def work_item(args):
 
 
 def shape_worker(args):
-    (binary, workdir, sid, body, profiles, decomp_settings, seeds) = args
+    (binary, workdir, prop, sid, body, configs) = args
     seen = {}
     out = []
-    for nd in decomp_settings:
-        for prof in profiles:
-            for seed in seeds:
-                out.append(work_item((binary, workdir, sid, body, nd, prof, seed, seen, None)))
+    for (nd, prof, seed, schedule, rules) in configs:
+        out.append(work_item((binary, workdir, prop, sid, body, nd, prof, seed, schedule, rules, seen)))
     return out
+
+
+C03_SCHEDULES_QUICK = [
+    ["main", "other", "main"],
+    ["main", "main", "other", "main"],
+    ["other", "main", "main", "other", "main"],
+]
+C03_SCHEDULES_THOROUGH = C03_SCHEDULES_QUICK + [
+    ["other", "other", "main", "main"],
+    ["main", "other", "other", "main", "other", "main"],
+    ["main", "main", "main", "main"],
+]
+C03_SHAPES_QUICK = {"one", "chain2", "self2", "fn_chain", "fn_dup", "triangle", "chain3", "star3", "fn_mid", "chain4", "cycle4", "two_comp"}
+
+
+def configs_for(prop, tier, seed):
+    quick = tier == "quick"
+    shapes = [(sid, body) for sid, body, tag in gen.SHAPES if (not quick) or tag == "q"]
+    profiles = gen.PROFILES_QUICK if quick else gen.PROFILES_THOROUGH
+    seeds = [seed] if quick else [seed, seed + 1, seed + 2]
+    items = []
+    if prop == "C02":
+        rules = {"main": ("Out", "")}
+        for sid, body in shapes:
+            cfgs = [(nd, prof, sd, ["main", "main"], rules) for nd in (False, True) for prof in profiles for sd in seeds]
+            items.append((sid, body, cfgs))
+    elif prop == "C03":
+        scheds = C03_SCHEDULES_QUICK if quick else C03_SCHEDULES_THOROUGH
+        rule_sets = [{"main": ("Out", ""), "other": ("Out2", "")},
+                     {"main": ("Out", " :naive"), "other": ("Out2", "")}]
+        profs = [p for p in profiles if p[0] in (("p3", "p60") if quick else ("p0", "p3", "p60", "skew", "p400"))]
+        for sid, body in shapes:
+            if quick and sid not in C03_SHAPES_QUICK:
+                continue
+            cfgs = [(nd, prof, sd, sc, rl) for sc in scheds for rl in rule_sets for prof in profs
+                    for nd in ((False,) if quick else (False, True)) for sd in (seeds if not quick else seeds[:1])]
+            items.append((sid, body, cfgs))
+    else:
+        raise SystemExit("no E2 configuration for " + prop)
+    return items, shapes, profiles, seeds
 
 
 def main():
@@ -698,14 +807,11 @@ def main():
             return 1
         print("did not reproduce" if rep is False else "replay could not be run")
         return 0 if rep is False else 2
-    quick = a.tier == "quick"
-    shapes = [(sid, body) for sid, body, tag in gen.SHAPES if (not quick) or tag == "q"]
+    cfg_items, shapes, profiles, seeds = configs_for(a.prop, a.tier, a.seed)
     if a.only:
-        shapes = [s for s in shapes if a.only in s[0]]
-    profiles = gen.PROFILES_QUICK if quick else gen.PROFILES_THOROUGH
-    seeds = [a.seed] if quick else [a.seed, a.seed + 1, a.seed + 2]
+        cfg_items = [c for c in cfg_items if a.only in c[0]]
     os.makedirs(a.workdir, exist_ok=True)
-    items = [(binary, a.workdir, sid, body, profiles, [False, True], seeds) for sid, body in shapes]
+    items = [(binary, a.workdir, a.prop, sid, body, cfgs) for sid, body, cfgs in cfg_items]
     rnd = random.Random(a.seed)
     rnd.shuffle(items)
     all_res = []
@@ -726,17 +832,26 @@ def main():
         result["queries"] += r["queries"]
         result["programs"] += 1
         cell = matrix.setdefault(r["shape"], {})
-        cell[("nd/" if r["no_decomp"] else "d/") + r["profile"]] = [p["key"] for p in r["plans"]]
+        cell.setdefault(("nd/" if r["no_decomp"] else "d/") + r["profile"], [])
+        cell[("nd/" if r["no_decomp"] else "d/") + r["profile"]] += [p["key"] for p in r["plans"]]
         for p in r["plans"]:
             plans.append(p)
             k = p["kind"] + ("/%d blocks" % p["blocks"] if p["kind"] == "Decomposed" else "")
             kinds[k] = kinds.get(k, 0) + 1
+    chain = [c for r in all_res for c in r["chain"]]
+    cover = [c for r in all_res for c in r["cover"]]
+    result["extra"] = {"trace_chain_checks": {"run": len(chain), "ok": sum(1 for c in chain if c["ok"])},
+                       "variant_cover_queries": {"run": len(cover), "unsat": sum(1 for c in cover if c["verdict"] == "unsat")},
+                       "schedules": sorted({r["schedule"] for r in all_res}),
+                       "seminaive_plans": sum(1 for p in plans if p.get("seminaive")),
+                       "naive_plans": sum(1 for p in plans if not p.get("seminaive"))}
     n_sanity = sum(len(r["sanity"]) for r in all_res)
     n_sanity_ok = sum(1 for r in all_res for s_ in r["sanity"] if s_["agree"])
     for p in plans:
-        result["obligations"] += 2
+        result["obligations"] += 3
         v = p["verdict"]
-        result["discharged"] += (1 if v.get("spurious") == "unsat" else 0) + (1 if v.get("lost") == "unsat" else 0)
+        result["discharged"] += (1 if v.get("spurious") == "unsat" else 0) + (1 if v.get("lost") == "unsat" else 0) \
+            + (1 if p.get("cover") == "unsat" else 0)
     result["distinct_plans"] = len(plans)
     result["distinct_nontrivial"] = sum(1 for p in plans if p["verdict"].get("witness_new_match_possible") == "sat")
     result["plan_kinds"] = kinds
@@ -746,7 +861,7 @@ def main():
     result["samples"] = [{"plan": p["key"], "from": p["tag"], "kind": p["kind"], "verdict": p["verdict"]}
                          for p in rnd.sample(plans, min(6, len(plans)))]
     result["bounds"] = {"rows_per_table": R, "value_domain": D, "max_atoms": 4, "max_arity": 3,
-                        "shapes": len(shapes), "profiles": [p[0] for p in profiles], "seeds": seeds}
+                        "shapes": len(cfg_items), "profiles": [p[0] for p in profiles], "seeds": seeds}
     result["model_sha256"] = hashlib.sha256(open(os.path.join(HERE, "model.py"), "rb").read()).hexdigest()[:16]
     result["solver"] = "z3 %s (python bindings), QF linear integer arithmetic" % z3.get_version_string()
     result["wall_s"] = round(time.time() - t0, 1)
